@@ -104,6 +104,9 @@ def main():
         print("the Go harness does not build against /repo's current tree")
     obligations, discharged, assumptions_text, theorem_names = 0, 0, "", []
     props_files = sorted(glob.glob(os.path.join("coq", "props", pid + ".v")) + glob.glob(os.path.join("coq", "props", pid + "_*.v")))
+    # theorems of another property's file that this property's statement leans on (e.g. the
+    # admission clause of C02 under concurrent submissions needs the one-episode atomicity table)
+    props_files += [os.path.join("coq", "props", f) for f in cfg.get("also_props", [])]
     src = "\n".join(open(f).read() for f in props_files)
     theorem_names = re.findall(r"^\s*(?:Theorem|Corollary)\s+(\w+)", src, flags=re.M)
     obligations = len(theorem_names)
